@@ -252,8 +252,10 @@ func apifuAPI(has func(req ...string) bool, registerOrphans, subs bool, log *cal
 		cfg.AddQueryField("events", apifu.TimeBasedConnection(&apifu.TimeBasedConnectionConfig{
 			NamePrefix:       "QueryEvents",
 			RequiredFeatures: fs("fb"),
-			EdgeCursor:       func(e interface{}) apifu.TimeBasedCursor { return apifu.NewTimeBasedCursor(e.(*thing).at, e.(*thing).id) },
-			EdgeFields:       edgeFields("QueryEvents", "extra", "fa"),
+			EdgeCursor: func(e interface{}) apifu.TimeBasedCursor {
+				return apifu.NewTimeBasedCursor(e.(*thing).at, e.(*thing).id)
+			},
+			EdgeFields: edgeFields("QueryEvents", "extra", "fa"),
 			EdgeGetter: func(ctx graphql.FieldContext, minTime, maxTime time.Time, limit int) (interface{}, error) {
 				log.add("Query.events")
 				var out []*thing
@@ -363,4 +365,17 @@ var apifuDocs = []string{
 	`{ i: __type(name: "QueryItemsEdge") { fields { name } } e: __type(name: "QueryEventsEdge") { fields { name } } n: __type(name: "Node") { fields { name } } }`,
 	`mutation { bump }`,
 	`mutation { betaBump }`,
+	// names one or two edits away from a gated element's name, and from a visible one as control
+	`{ bet }`,
+	`{ betaa }`,
+	`{ pin }`,
+	`{ thing(first: 1) { totalCount } }`,
+	`{ items(firs: 1) { totalCount } }`,
+	`{ things(firs: 1) { totalCount } }`,
+	`{ items(first: 1) { edges { secre nod { id } } } }`,
+	`{ node(id: "t1") { betaI ... on Thin { n } ... on Thing { n nnn } } }`,
+	`{ ... on Quer { ping } ... on QueryThingsEdg { cursor } }`,
+	`mutation { betaBum }`,
+	`query($x: QueryThingsEdg, $y: DateTim) { ping }`,
+	`{ ping @includ(if: true) }`,
 }
